@@ -181,7 +181,7 @@ Qed.
 
 (* ---------- good is closed under the combinators ---------- *)
 Section Good.
-Variable F : kind -> bool -> option ctx -> status -> bool -> ctx -> Prop.
+Variable F : obs_pred.
 
 Lemma good_skip : forall st, good F (fun st => (ONorm, st)) st.
 Proof. intro st; exists []; simpl; repeat split; auto. Qed.
@@ -299,7 +299,7 @@ Qed.
 End Good.
 
 (* ---------- node bodies ---------- *)
-Definition rel_good (F : kind -> bool -> option ctx -> status -> bool -> ctx -> Prop) (st st' : state) : Prop :=
+Definition rel_good (F : obs_pred) (st st' : state) : Prop :=
   exists new, tr st' = new ++ tr st /\ stk st' = stk st /\ bad st' = bad st /\ next st <= next st'
     /\ replay (rev new) (stk st) = Some (stk st) /\ Forall (ev_ok F) new.
 
@@ -324,34 +324,34 @@ Qed.
 Lemma replay_obs_self : forall o s, ob_top o = top_of s -> replay [EvObs o] s = Some s.
 Proof. intros o s H. unfold replay, apply_event. rewrite H. rewrite ctx_beq_refl. reflexivity. Qed.
 
-Lemma rel_good_observe : forall (F : kind -> bool -> option ctx -> status -> bool -> ctx -> Prop)
-  lbl pos k dyn arg cs urconv st,
-  F k dyn arg cs urconv (top_of (stk st)) ->
-  rel_good F st (observe lbl pos k dyn arg cs urconv st).
+Lemma rel_good_observe : forall (F : obs_pred)
+  lbl pos k outer dyn arg cs urconv st,
+  F k outer dyn arg cs urconv (top_of (stk st)) ->
+  rel_good F st (observe lbl pos k outer dyn arg cs urconv st).
 Proof.
   intros. unfold observe, log.
-  exists [EvObs (mkobs lbl pos k dyn arg cs urconv (top_of (stk st)) (length (stk st)))].
+  exists [EvObs (mkobs lbl pos k dyn outer arg cs urconv (top_of (stk st)) (length (stk st)))].
   split; [reflexivity|]. split; [reflexivity|]. split; [reflexivity|]. split; [apply le_n|].
   split; [apply replay_obs_self; reflexivity|]. constructor; [exact H|constructor].
 Qed.
 
-Lemma good_run_body : forall F (exec_child : tree -> M) lbl k dyn catches r arg cs urconv children,
+Lemma good_run_body : forall F (exec_child : tree -> M) lbl k outer dyn catches r arg cs urconv children,
   Forall (fun c => forall st, good F (exec_child c) st) children ->
-  forall pos st, F k dyn arg cs urconv (top_of (stk st)) ->
-  good F (run_body exec_child lbl k dyn catches r arg cs urconv pos children) st.
+  forall pos st, F k outer dyn arg cs urconv (top_of (stk st)) ->
+  good F (run_body exec_child lbl k outer dyn catches r arg cs urconv pos children) st.
 Proof.
-  intros F exec_child lbl k dyn catches r arg cs urconv children Hch.
+  intros F exec_child lbl k outer dyn catches r arg cs urconv children Hch.
   induction Hch as [|c rest Hc Hrest IH]; intros pos st HF; apply good_rel; simpl.
-  - pose proof (rel_good_observe F lbl pos k dyn arg cs urconv st HF) as Ho.
+  - pose proof (rel_good_observe F lbl pos k outer dyn arg cs urconv st HF) as Ho.
     destruct (raises_here r pos); simpl; exact Ho.
-  - pose proof (rel_good_observe F lbl pos k dyn arg cs urconv st HF) as Ho.
+  - pose proof (rel_good_observe F lbl pos k outer dyn arg cs urconv st HF) as Ho.
     destruct (raises_here r pos); simpl; [exact Ho|].
-    set (st1 := observe lbl pos k dyn arg cs urconv st) in *.
+    set (st1 := observe lbl pos k outer dyn arg cs urconv st) in *.
     pose proof (proj1 (good_rel F _ _) (Hc st1)) as H1.
     assert (Hs1 : stk st1 = stk st) by reflexivity.
     destruct (exec_child c st1) as [o st2] eqn:E. simpl in H1.
     assert (H02 : rel_good F st st2) by (eapply rel_good_trans; eassumption).
-    assert (HF2 : F k dyn arg cs urconv (top_of (stk st2))).
+    assert (HF2 : F k outer dyn arg cs urconv (top_of (stk st2))).
     { destruct H1 as [_ [_ [S _]]]. rewrite S, Hs1. exact HF. }
     pose proof (proj1 (good_rel F _ _) (IH (S pos) st2 HF2)) as H3.
     destruct o.
@@ -376,16 +376,31 @@ Proof.
   intros c st x st1 H. destruct c; simpl in H; inv H; simpl; repeat split; auto.
 Qed.
 
+Lemma tables_ok_all : forall T, tables_ok T = true ->
+  (ctx_ok T = true /\ scope_ok T = true /\ shapes_ok T = true /\ internal_ok T = true
+   /\ sd_init_status (t_scope T) = Enabled /\ t_to_graph_user_requested T = true)
+  /\ (t_disabled_check T = true /\ t_dnc_skips_art T = false /\ t_unspec_skips_art T = false
+      /\ t_convert_skips_art T = false).
+Proof.
+  intros T H. unfold tables_ok in H.
+  apply andb_true_iff in H; destruct H as [H H10]. apply andb_true_iff in H; destruct H as [H H9].
+  apply andb_true_iff in H; destruct H as [H H8]. apply andb_true_iff in H; destruct H as [H H7].
+  apply andb_true_iff in H; destruct H as [H H6]. apply andb_true_iff in H; destruct H as [H H5].
+  apply andb_true_iff in H; destruct H as [H H4]. apply andb_true_iff in H; destruct H as [H H3].
+  apply andb_true_iff in H; destruct H as [H1 H2].
+  apply status_eqb_eq in H5. apply negb_true_iff in H8. apply negb_true_iff in H9. apply negb_true_iff in H10.
+  repeat split; assumption.
+Qed.
+
 Lemma tables_ok_inv : forall T, tables_ok T = true ->
   ctx_ok T = true /\ scope_ok T = true /\ shapes_ok T = true /\ internal_ok T = true
   /\ sd_init_status (t_scope T) = Enabled /\ t_to_graph_user_requested T = true.
-Proof.
-  intros T H. unfold tables_ok in H.
-  apply andb_true_iff in H; destruct H as [H H6]. apply andb_true_iff in H; destruct H as [H H5].
-  apply andb_true_iff in H; destruct H as [H H4]. apply andb_true_iff in H; destruct H as [H H3].
-  apply andb_true_iff in H; destruct H as [H1 H2]. apply status_eqb_eq in H5.
-  repeat split; assumption.
-Qed.
+Proof. intros T H. exact (proj1 (tables_ok_all T H)). Qed.
+
+Lemma tables_ok_flags : forall T, tables_ok T = true ->
+  t_disabled_check T = true /\ t_dnc_skips_art T = false /\ t_unspec_skips_art T = false
+  /\ t_convert_skips_art T = false.
+Proof. intros T H. exact (proj2 (tables_ok_all T H)). Qed.
 
 Lemma balance_tables_ok_inv : forall T, balance_tables_ok T = true -> ctx_ok T = true /\ scope_ok T = true.
 Proof. intros T H; unfold balance_tables_ok in H; apply andb_true_iff in H; exact H. Qed.
@@ -428,9 +443,10 @@ Proof.
     - apply (proj1 (good_rel _ (bf false) st1)). apply Hbf.
     - apply (proj1 (good_rel _ _ st1)). apply good_exec_w_any; simpl; auto. }
   apply good_rel. unfold invoke. cbv zeta.
-  destruct k as [| | |c|ur rc m|c cbd ur|ur|ur|rc].
+  destruct k as [| | |c|ur rc m|c cbd ur|ur|ur|rc|].
+  2:{ apply rel_of_good. apply good_exec_w_any; simpl; auto. }
+  9:{ apply rel_of_good. apply Hb. }
   - apply rel_of_good. apply Hb.
-  - apply rel_of_good. apply good_exec_w_any; simpl; auto.
   - apply rel_of_good. apply good_exec_w_any; simpl; auto.
   - destruct (eval_cexpr c st) as [x st1] eqn:E. destruct (eval_cexpr_frame _ _ _ _ E) as [S1 [S2 [S3 S4]]].
     eapply rel_good_frame; eauto. apply rel_of_good. apply good_exec_w_any; simpl; auto.
@@ -451,22 +467,66 @@ Proof.
     + apply rel_of_good. apply good_exec_w_any; simpl; auto.
 Qed.
 
+(* a wrapper stacked on a callable that is good from every state *)
+Lemma invoke_layer_good : forall F T l artf (body : M),
+  balance_tables_ok T = true -> (forall st, good F body st) ->
+  forall st, good F (invoke_layer T l artf body) st.
+Proof.
+  intros F T l artf body Hok Hb st. destruct (balance_tables_ok_inv T Hok) as [Hc Hs].
+  assert (Hd : forall st, good F (layer_dnc T artf body) st).
+  { intro s0. apply good_rel. unfold layer_dnc. destruct (t_dnc_skips_art T && artf); apply rel_of_good;
+      [apply Hb | apply good_exec_w_any; simpl; auto]. }
+  assert (Hu : forall st, good F (layer_unspec T artf body) st).
+  { intro s0. apply good_rel. unfold layer_unspec. destruct (t_unspec_skips_art T && artf); apply rel_of_good;
+      [apply Hb | apply good_exec_w_any; simpl; auto]. }
+  assert (Hcv : forall v, wfv v -> forall st, good F (layer_convert T artf v body) st).
+  { intros v Hv s0. apply good_rel. unfold layer_convert. destruct (t_convert_skips_art T && artf); apply rel_of_good;
+      [apply Hb | apply good_exec_w_any; simpl; auto]. }
+  apply good_rel. unfold invoke_layer.
+  destruct l as [| | |c|ur rc m|c cbd ur|ur|ur|rc|].
+  - apply rel_of_good. apply Hb.
+  - apply rel_of_good. apply Hd.
+  - apply rel_of_good. apply Hu.
+  - destruct (eval_cexpr c st) as [x st1] eqn:E. destruct (eval_cexpr_frame _ _ _ _ E) as [S1 [S2 [S3 S4]]].
+    eapply rel_good_frame; eauto. apply rel_of_good. apply good_exec_w_any; simpl; auto.
+  - destruct m as [|c].
+    + apply rel_of_good. apply Hcv. exact I.
+    + destruct (eval_cexpr c st) as [x st1] eqn:E. destruct (eval_cexpr_frame _ _ _ _ E) as [S1 [S2 [S3 S4]]].
+      eapply rel_good_frame; eauto. apply rel_of_good. apply Hcv. exact I.
+  - destruct (eval_cexpr c st) as [x st1] eqn:E. destruct (eval_cexpr_frame _ _ _ _ E) as [S1 [S2 [S3 S4]]].
+    eapply rel_good_frame; eauto.
+    destruct (t_internal_skips_art T && artf); [apply rel_of_good; apply Hb|].
+    destruct (t_internal T (cst x) cbd); apply rel_of_good; [apply Hcv; exact I | apply Hd | apply Hu].
+  - apply rel_of_good. apply good_exec_w_any; simpl; auto.
+  - apply rel_of_good. apply good_exec_w_any; simpl; auto.
+  - apply rel_of_good. apply Hb.
+  - apply rel_of_good. apply Hb.
+Qed.
+
 (* induction principle for trees *)
 Lemma tree_ind' : forall P : tree -> Prop,
   (forall lbl k dyn catches r children, Forall P children -> P (Node lbl k dyn catches r children)) ->
+  (forall l t, P t -> P (Wrap l t)) ->
   forall t, P t.
 Proof.
-  intros P H. fix IH 1. intro t. destruct t as [lbl k dyn catches r children].
-  apply H. induction children as [|c cs IHcs]; constructor; [apply IH | exact IHcs].
+  intros P H HW. fix IH 1. intro t. destruct t as [lbl k dyn catches r children|l t'].
+  - apply H. induction children as [|c cs IHcs]; constructor; [apply IH | exact IHcs].
+  - apply HW. apply IH.
+Qed.
+
+Theorem exec_in_good_any : forall T, balance_tables_ok T = true ->
+  forall t outer st, good obs_true (exec_in T outer t) st.
+Proof.
+  intros T Hok t. induction t as [lbl k dyn catches r children IH|l t IH] using tree_ind'; intros outer st; simpl.
+  - apply invoke_good_any; [exact Hok|].
+    intros u a cs st0. apply good_run_body; [|exact I].
+    rewrite Forall_forall in *. intros c Hc s0. apply (IH c Hc [] s0).
+  - apply invoke_layer_good; [exact Hok|]. intro s0. apply IH.
 Qed.
 
 Theorem exec_good_any : forall T, balance_tables_ok T = true ->
   forall t st, good obs_true (exec T t) st.
-Proof.
-  intros T Hok t. induction t as [lbl k dyn catches r children IH] using tree_ind'.
-  intro st. simpl. apply invoke_good_any; [exact Hok|].
-  intros u a cs st0. apply good_run_body; [exact IH | exact I].
-Qed.
+Proof. intros T Hok t st. apply exec_in_good_any. exact Hok. Qed.
 
 (* -- status inside: the wrapper shapes matter -- *)
 Lemma good_shape : forall F T en w e (body : M) st,
@@ -521,7 +581,8 @@ Proof.
     + destruct (HG _ eq_refl) as [G1 G2]. eapply good_call_converted; simpl; eauto.
 Qed.
 
-Ltac spec_split := unfold obs_spec; repeat split; try (intros; discriminate).
+Ltac spec_split := unfold obs_spec; repeat split; try (intros; discriminate); try (simpl; intros; contradiction);
+  try assumption; try (simpl; intros; reflexivity).
 
 Lemma disabled_branch_absurd : forall (chk : bool) s dyn,
   chk && status_eqb s Disabled = true \/ dyn = true -> dyn = false -> s <> Disabled -> False.
@@ -530,30 +591,39 @@ Proof.
   apply andb_true_iff in H; destruct H as [_ H]. apply status_eqb_eq in H. contradiction.
 Qed.
 
-Lemma invoke_good_spec : forall T k dyn (bodyf : bool -> option ctx -> status -> M),
+Lemma converted_branch_not_disabled : forall s dyn,
+  (true && status_eqb s Disabled) || dyn = false -> s = Disabled -> False.
+Proof. intros s dyn H E. subst. simpl in H. discriminate. Qed.
+
+Definition outer_pre (outer : list kind) (s0 : status) : Prop :=
+  forall pre l s, outer = pre ++ [l] -> layer_status l = Some s -> s0 = s.
+
+Lemma invoke_good_spec : forall T k outer dyn (bodyf : bool -> option ctx -> status -> M) st,
   tables_ok T = true ->
-  (forall u a cs st, obs_spec k dyn a cs u (top_of (stk st)) -> good obs_spec (bodyf u a cs) st) ->
-  forall st, good obs_spec (invoke T k dyn bodyf) st.
+  outer_pre outer (cst (top_of (stk st))) ->
+  (forall u a cs st', obs_spec k outer dyn a cs u (top_of (stk st')) -> good obs_spec (bodyf u a cs) st') ->
+  good obs_spec (invoke T k dyn bodyf) st.
 Proof.
-  intros T k dyn bodyf Hok Hb st.
+  intros T k outer dyn bodyf st Hok Hpre Hb. unfold outer_pre in Hpre.
   destruct (tables_ok_inv T Hok) as [Hc [Hs [Hsh [Hi [Hen Htg]]]]].
+  destruct (tables_ok_flags T Hok) as [Hdc _].
   destruct (shapes_ok_inv T Hsh) as [Hdn [Hun [Hcv [Hcf Hwf]]]].
   destruct (scope_ok_inv T Hs) as [Hig _].
   pose proof (internal_ok_inv T Hi) as Hint.
   apply good_rel. unfold invoke. cbv zeta.
-  destruct k as [| | |c|ur rc m|c cbd ur|ur|ur|rc].
-  - (* plain *) apply rel_of_good. apply Hb. spec_split. simpl. contradiction.
+  destruct k as [| | |c|ur rc m|c cbd ur|ur|ur|rc|].
+  - (* plain *) apply rel_of_good. apply Hb. spec_split.
   - (* do_not_convert *) apply rel_of_good. eapply good_shape; eauto; [exact I|].
-    intros v st1 Ev. simpl in Ev. inv Ev. apply Hb. unfold entered; simpl. spec_split. simpl. contradiction.
+    intros v st1 Ev. simpl in Ev. inv Ev. apply Hb. unfold entered; simpl. spec_split.
   - (* unspecified *) apply rel_of_good. eapply good_shape; eauto; [exact I|].
-    intros v st1 Ev. simpl in Ev. inv Ev. apply Hb. unfold entered; simpl. spec_split. simpl. contradiction.
+    intros v st1 Ev. simpl in Ev. inv Ev. apply Hb. unfold entered; simpl. spec_split.
   - (* with *) destruct (eval_cexpr c st) as [x st1] eqn:E.
     destruct (eval_cexpr_frame _ _ _ _ E) as [S1 [S2 [S3 S4]]].
     eapply rel_good_frame; eauto. apply rel_of_good. apply good_with; auto; [exact I|].
-    intros v st2 Ev. simpl in Ev. inv Ev. apply Hb. unfold entered; simpl. spec_split. simpl. contradiction.
+    intros v st2 Ev. simpl in Ev. inv Ev. apply Hb. unfold entered; simpl. spec_split.
   - (* convert *) destruct m as [|c].
     + apply rel_of_good.
-      eapply (good_invoke_convert T (fun u top => obs_spec (KConvert ur rc MNull) dyn None (cst (top_of (stk st))) u top));
+      eapply (good_invoke_convert T (fun u top => obs_spec (KConvert ur rc MNull) outer dyn None (cst (top_of (stk st))) u top));
         eauto.
       intros top ->. split.
       * intros Hd. apply orb_true_iff in Hd. spec_split.
@@ -561,11 +631,13 @@ Proof.
         eapply disabled_branch_absurd; eauto.
       * intros Hd c0 C1 C2. spec_split.
         -- simpl. destruct ur; [reflexivity|contradiction].
-        -- exact C1.
+        -- simpl. intro Hu. rewrite (C2 Hu). reflexivity.
+        -- intros ur' rc' _ Hdis. destruct ur; [|reflexivity]. exfalso. rewrite Hdc in Hd.
+           eapply converted_branch_not_disabled; eauto.
     + destruct (eval_cexpr c st) as [x st1] eqn:E.
       destruct (eval_cexpr_frame _ _ _ _ E) as [S1 [S2 [S3 S4]]].
       eapply rel_good_frame; eauto. apply rel_of_good.
-      eapply (good_invoke_convert T (fun u top => obs_spec (KConvert ur rc (MCtx c)) dyn (Some x) (cst (top_of (stk st))) u top));
+      eapply (good_invoke_convert T (fun u top => obs_spec (KConvert ur rc (MCtx c)) outer dyn (Some x) (cst (top_of (stk st))) u top));
         eauto.
       intros top ->. split.
       * intros Hd. apply orb_true_iff in Hd. spec_split.
@@ -573,13 +645,12 @@ Proof.
         eapply disabled_branch_absurd; eauto.
       * intros Hd c0 C1 C2. spec_split.
         -- simpl. destruct ur; [reflexivity|contradiction].
-        -- exact C1.
   - (* internal_convert *)
     destruct (eval_cexpr c st) as [x st1] eqn:E.
     destruct (eval_cexpr_frame _ _ _ _ E) as [S1 [S2 [S3 S4]]].
     eapply rel_good_frame; eauto. rewrite Hint.
     destruct (internal_spec (cst x) cbd) eqn:Ei; apply rel_of_good.
-    + eapply (good_invoke_convert T (fun u top => obs_spec (KInternal c cbd ur) dyn (Some x) (cst (top_of (stk st))) u top));
+    + eapply (good_invoke_convert T (fun u top => obs_spec (KInternal c cbd ur) outer dyn (Some x) (cst (top_of (stk st))) u top));
         eauto.
       intros top ->. split.
       * intros Hd. apply orb_true_iff in Hd. spec_split.
@@ -591,7 +662,6 @@ Proof.
         -- intros c' cbd' ur' _ Hx. simpl in Hx. rewrite Hx in Ei. discriminate.
         -- intros c' ur' Hk Hx. inv Hk. simpl in Hx. rewrite Hx in Ei. discriminate.
         -- simpl. destruct ur; [reflexivity|contradiction].
-        -- exact C1.
     + eapply good_shape; eauto; [exact I|].
       intros v st2 Ev. simpl in Ev. inv Ev. apply Hb. unfold entered; simpl. spec_split.
       * intros c' ur' Hk Hx. inv Hk. simpl in Hx. rewrite Hx in Ei. discriminate.
@@ -611,13 +681,48 @@ Proof.
     + apply rel_of_good. eapply good_shape; eauto; [exact I|].
       intros v st1 Ev. simpl in Ev. rewrite Hig, Htg in Ev. simpl in Ev. inv Ev.
       apply Hb. rewrite Htg. unfold entered; simpl. spec_split; auto.
+  - (* artifact *) apply rel_of_good. apply Hb. spec_split.
+Qed.
+
+(* a stacked wrapper establishes its status for what it calls *)
+Lemma invoke_layer_good_spec : forall F T l artf (body : M) st,
+  tables_ok T = true ->
+  (forall st', (forall s, layer_status l = Some s -> cst (top_of (stk st')) = s) -> good F body st') ->
+  good F (invoke_layer T l artf body) st.
+Proof.
+  intros F T l artf body st Hok Hb.
+  destruct (tables_ok_inv T Hok) as [Hc [Hs [Hsh _]]].
+  destruct (tables_ok_flags T Hok) as [_ [Hd [Hu _]]].
+  destruct (shapes_ok_inv T Hsh) as [Hdn [Hun _]].
+  destruct l as [| | |c|ur rc m|c cbd ur|ur|ur|rc|];
+    try (apply invoke_layer_good; [apply tables_ok_balance; exact Hok |
+                                   intro s0; apply Hb; intros s E; discriminate]).
+  - apply good_rel. unfold invoke_layer, layer_dnc. rewrite Hd. simpl.
+    apply rel_of_good. eapply good_shape; eauto; [exact I|].
+    intros v st1 Ev. simpl in Ev. inv Ev. apply Hb. unfold entered; simpl.
+    intros s E. inv E. reflexivity.
+  - apply good_rel. unfold invoke_layer, layer_unspec. rewrite Hu. simpl.
+    apply rel_of_good. eapply good_shape; eauto; [exact I|].
+    intros v st1 Ev. simpl in Ev. inv Ev. apply Hb. unfold entered; simpl.
+    intros s E. inv E. reflexivity.
+Qed.
+
+Theorem exec_in_good_spec : forall T, tables_ok T = true -> forall t outer st,
+  outer_pre outer (cst (top_of (stk st))) -> good obs_spec (exec_in T outer t) st.
+Proof.
+  intros T Hok t. induction t as [lbl k dyn catches r children IH|l t IH] using tree_ind'; intros outer st Hpre; simpl.
+  - apply invoke_good_spec with (outer := outer); [exact Hok | exact Hpre |].
+    intros u a cs st0 Hp. apply good_run_body; [|exact Hp].
+    rewrite Forall_forall in *. intros c Hc s0. apply (IH c Hc [] s0).
+    intros pre l s E. destruct pre; discriminate.
+  - apply invoke_layer_good_spec; [exact Hok|].
+    intros st' Hl. apply IH. intros pre l' s E Hs.
+    apply app_inj_tail in E. destruct E as [_ <-]. apply Hl. exact Hs.
 Qed.
 
 Theorem exec_good_spec : forall T, tables_ok T = true -> forall t st, good obs_spec (exec T t) st.
 Proof.
-  intros T Hok t. induction t as [lbl k dyn catches r children IH] using tree_ind'.
-  intro st. simpl. apply invoke_good_spec; [exact Hok|].
-  intros u a cs st0 Hpre. apply good_run_body; [exact IH | exact Hpre].
+  intros T Hok t st. apply exec_in_good_spec; [exact Hok|]. intros pre l s E. destruct pre; discriminate.
 Qed.
 
 (* ---------- the statements used by the obligations ---------- *)
@@ -637,7 +742,7 @@ Proof.
 Qed.
 
 Definition obs_spec_of (o : obs) : Prop :=
-  obs_spec (ob_kind o) (ob_dyn o) (ob_arg o) (ob_call_status o) (ob_urconv o) (ob_top o).
+  obs_spec (ob_kind o) (ob_outer o) (ob_dyn o) (ob_arg o) (ob_call_status o) (ob_urconv o) (ob_top o).
 
 Theorem status_inside_all : forall T, tables_ok T = true -> forall t st, tr st = [] ->
   forall o, In o (trace (snd (exec T t st))) -> obs_spec_of o.
